@@ -164,7 +164,7 @@ Print Assumptions label_names_every_scan_bounded.
    CLokiQuerier.transpileLabelMatchers) ------------------------------------------------------------------------
    For EVERY hint record, matcher list, regex oracle, table layout and database name: every base-table read of the
    statement Select sends (samples_v3 / metrics_15s, the time_series_gin reads of fp_sel and of every exclusion
-   sub-query) carries type IN (2,0) and is bounded by the hint window: every row with Start < t <= End is read and
+   sub-query) carries type IN (2,0) and is bounded by the hint window: every row with Start <= t <= End is read and
    nothing outside [Start, End + 1 ms) (milliseconds as nanoseconds); index reads have date >= FormatFromDate(Start). *)
 Theorem prom_every_scan_bounded : forall re_full cluster db h ms,
   Forall (scan_bounded table_info (prom_win h)) (scans (fst (querier_transpile re_full cluster db h ms))).
@@ -178,18 +178,19 @@ Theorem prom_raw_every_scan_exact : forall re_full cluster db h ms,
 Proof. exact prom_raw_select_scans_exact. Qed.
 Print Assumptions prom_raw_every_scan_exact.
 
-(* ... the down-sampled path does not: InitDownsamplePlanner still writes timestamp_ns > Start (the 15-second row
-   stamped exactly Start is left out) *)
-Theorem prom_downsample_closed_window_refuted :
-  use_raw_data ds_hints = false /\
-  ~ Forall (scan_bounded table_info (prom_raw_win ds_hints))
-           (scans (fst (querier_transpile (fun _ _ => true) false "qryn" ds_hints [m_up; m_re]))).
-Proof. exact prom_downsample_start_exclusive. Qed.
-Print Assumptions prom_downsample_closed_window_refuted.
+(* ... and a Select planned on the 15-second roll-up reads exactly Start <= timestamp_ns <= End (the rows of metrics_15s
+   are stamped on 15-second boundaries: for them this is the same closed window).  Replaces
+   prom_downsample_closed_window_refuted: InitDownsamplePlanner wrote timestamp_ns > Start and left out the row stamped
+   exactly Start; repaired in /repo (one character, as f155c1f did for the raw path). *)
+Theorem prom_downsample_every_scan_exact : forall re_full cluster db h ms,
+  use_raw_data h = false ->
+  Forall (scan_bounded table_info (prom_ds_win h)) (scans (fst (querier_transpile re_full cluster db h ms))).
+Proof. exact prom_downsample_select_scans_exact. Qed.
+Print Assumptions prom_downsample_every_scan_exact.
 
 (* both transpilers under any context whose tables are classified as the schema has them *)
 Theorem prom_transpilers_every_scan_bounded : forall info c W re_full h ms,
-  ctx_tables info c -> pwin_ok true c W ->
+  ctx_tables info c -> pwin_ok true true c W ->
   Forall (scan_bounded info W) (scans (transpile_label_matchers re_full h c ms)) /\
   Forall (scan_bounded info W) (scans (transpile_label_matchers_downsample re_full h c ms)).
 Proof. exact prom_transpilers_scans_bounded. Qed.
@@ -223,13 +224,15 @@ Print Assumptions prof_selector_every_scan_bounded.
    tags / values), call number and planner context whose table names are classified as the schema has them and
    whose date texts are the UTC days of a window between 1970-01-01 00:30 and 2100: every read of the statement
    plan q m c n is bounded by the window [from, to) (index reads: date >= day(from), date <= day(to) and the
-   timestamp bounds; tempo_traces reads of the attribute-less search: timestamp bounds), or is one of the two
-   reads of the final search statement that fetch the spans of the traces found (trace_id IN (trace_ids)). *)
-Theorem traceql_every_scan_confined : forall info c q m n s,
+   timestamp bounds; tempo_traces reads of the attribute-less search and the two reads of the final search statement
+   that fetch the spans of the traces found: timestamp bounds).  Full strength: replaces traceql_every_scan_confined /
+   traceql_every_scan_bounded_refuted (TracesDataPlanner read tempo_traces by trace_id IN (trace_ids) alone; repaired
+   in /repo, the witness request is in corpus/C13/fixed_requests.jsonl). *)
+Theorem traceql_every_scan_bounded : forall info c q m n s,
   tq_tables info c -> tq_ctx_ok c -> TraceqlPlan.plan q m c n = TraceqlPlan.Ok s ->
-  Forall (fun sc => scan_bounded info (tq_win c) sc \/ trace_restricted sc) (tq_scans s).
-Proof. exact tq_plan_scans_confined. Qed.
-Print Assumptions traceql_every_scan_confined.
+  Forall (scan_bounded info (tq_win c)) (tq_scans s).
+Proof. exact tq_plan_scans_bounded. Qed.
+Print Assumptions traceql_every_scan_bounded.
 
 (* the index part of a search (everything below the CTE index_grouped: attribute conditions, attribute-less
    search, && / || of selectors, aggregators, limit): every read is bounded *)
@@ -245,13 +248,6 @@ Theorem traceql_tags_every_scan_bounded : forall info c q m n s,
   Forall (scan_bounded info (tq_win c)) (tq_scans s).
 Proof. exact tq_tags_scans_bounded. Qed.
 Print Assumptions traceql_tags_every_scan_bounded.
-
-(* full strength is false for a search: the final statement reads tempo_traces without a timestamp bound *)
-Theorem traceql_every_scan_bounded_refuted :
-  exists s, TraceqlPlan.plan tq_q0 TraceqlPlan.MSearch tq_ctx0 1 = TraceqlPlan.Ok s /\
-            ~ Forall (scan_bounded table_info (tq_win tq_ctx0)) (tq_scans s).
-Proof. exact tq_search_fetch_unbounded. Qed.
-Print Assumptions traceql_every_scan_bounded_refuted.
 
 (* ---- the hypotheses are met by non-trivial values ------------------------------------------------- *)
 Example partial_guard_met :
@@ -273,8 +269,8 @@ Example tables_cluster : ctx_tables table_info cluster_ctx.
 Proof. exact cluster_ctx_tables. Qed.
 Example traceql_guards_met :
   tq_tables table_info tq_ctx0 /\ tq_ctx_ok tq_ctx0 /\
-  (match tq_res tq_q0 TraceqlPlan.MSearch with Some s => Nat.leb 3 (List.length (tq_scans s)) | None => false end = true) /\
-  (match tq_res tq_q1 TraceqlPlan.MSearch with Some s => Nat.leb 5 (List.length (tq_scans s)) | None => false end = true) /\
+  (match tq_res tq_q0 TraceqlPlan.MSearch with Some s => Nat.leb 3 (List.length (tq_scans s)) && tq_all_bounded_b s | None => false end = true) /\
+  (match tq_res tq_q1 TraceqlPlan.MSearch with Some s => Nat.leb 5 (List.length (tq_scans s)) && tq_all_bounded_b s | None => false end = true) /\
   (match tq_res tq_q0 TraceqlPlan.MTags with Some s => Nat.leb 2 (List.length (tq_scans s)) && tq_all_bounded_b s | None => false end = true) /\
   (match tq_res tq_q0 (TraceqlPlan.MValues "service.name") with Some s => Nat.leb 2 (List.length (tq_scans s)) && tq_all_bounded_b s | None => false end = true).
 Proof. split; [exact tq_ctx0_tables|]. split; [exact tq_ctx0_ok|]. exact tq_examples. Qed.
@@ -286,7 +282,7 @@ Example prom_guards_met :
   Nat.leb 5 (List.length (scans (fst (querier_transpile (fun _ _ => true) true "qryn" raw_hints [m_up; m_re])))) = true /\
   Nat.leb 5 (List.length (scans (fst (querier_transpile (fun _ _ => true) false "qryn" ds_hints [m_up; m_re])))) = true.
 Proof. exact prom_examples. Qed.
-Example prom_ctx_window_met : forall cluster db h, ctx_tables table_info (prom_ctx cluster db h) /\ pwin_ok true (prom_ctx cluster db h) (prom_win h).
+Example prom_ctx_window_met : forall cluster db h, ctx_tables table_info (prom_ctx cluster db h) /\ pwin_ok true true (prom_ctx cluster db h) (prom_win h).
 Proof. intros. split; [apply prom_ctx_tables | apply prom_win_ok]. Qed.
 Example label_guards_met :
   (match multi_stream_select cluster_ctx [[m_ab]; [m_ab]] with
